@@ -387,6 +387,102 @@ def detModP (inv : Inv) (p : Nat) (mat : List (List Int)) : Option Nat :=
     | some none => some 0
     | some (some e') => e'.det
 
+/-! ### reference echelon builder in plain modular arithmetic
+
+`EchP` is the same algorithm as `Ech` with residues in natural representation and the sequential
+elimination only (no Montgomery form, no 8-row blocks). It is the object of `echelon_det`; the
+driver answers `im_echelon_plain` / `im_detp_plain` with it and the pipeline compares these answers
+with the implementation as well. -/
+
+structure EchP where
+  p : Nat
+  indices : List Nat
+  basis : List (List Nat)
+  factors : List Nat
+  deriving Repr, DecidableEq
+
+/-- `v - m·w` entrywise modulo `p` -/
+def rowSubMul (p : Nat) (v w : List Nat) (m : Nat) : List Nat :=
+  List.zipWith (fun a b => (a + (p - m * b % p)) % p) v w
+
+/-- the elimination loop: `rows` = the basis rows not yet used, `idxs` = their pivot columns -/
+def elimP (p : Nat) : List (List Nat) → List Nat → List Nat → Option (List Nat)
+  | [], _, vp => some vp
+  | _ :: _, [], _ => none
+  | row :: rows, idx :: idxs, vp =>
+    match vp[idx]? with
+    | none => none
+    | some vi => elimP p rows idxs (if vi = 0 then vp else rowSubMul p vp row vi)
+
+/-- `assert_eq!(v.len(), self.basis[0].len())` -/
+def shapeOkP (basis : List (List Nat)) (len : Nat) : Bool :=
+  match basis with
+  | [] => true
+  | b0 :: _ => len = b0.length
+
+/-- the builder with its column order initialised by the first row -/
+def EchP.start (e : EchP) (len : Nat) : EchP :=
+  if e.basis.isEmpty then { e with indices := List.range len } else e
+
+/-- `add(v)` -/
+def EchP.add (inv : Inv) (e : EchP) (v : List Int) : Option (EchP × Bool) :=
+  if e.p ≥ I63 ∨ e.p = 0 then none
+  else
+    if !shapeOkP e.basis v.length then none
+    else
+      let e := e.start v.length
+      let vp := v.map (fun x => (x % (e.p : Int)).toNat)
+      match elimP e.p e.basis e.indices vp with
+      | none => none
+      | some vp =>
+        match firstNonzero vp 0 with
+        | none => some (e, false)
+        | some (i, vi) =>
+          match inv vi e.p with
+          | some (some iv) =>
+            let row := vp.map (fun x => x * iv % e.p)
+            if row[i]? ≠ some 1 then none                  -- assert_eq!(vp[i], self.r)
+            else
+              match e.indices.idxOf? i with
+              | none => none
+              | some pos =>
+                match swapIdx e.indices pos e.basis.length with
+                | none => none
+                | some ind' =>
+                  some ({ e with indices := ind', basis := e.basis ++ [row], factors := e.factors ++ [vi] }, true)
+          | _ => none
+
+/-- `det()` -/
+def EchP.det (e : EchP) : Option Nat :=
+  match e.basis with
+  | [] => none
+  | b0 :: _ =>
+    if e.factors.length ≠ b0.length then none
+    else
+      match permSwaps e.indices with
+      | none => none
+      | some swaps =>
+        let d := e.factors.foldl (fun acc f => acc * f % e.p) (1 % e.p)
+        some (if swaps % 2 = 1 ∧ d > 0 then e.p - d else d)
+
+/-- add the rows one after the other; a rejected row leaves the state unchanged -/
+def EchP.addAll (inv : Inv) (e : EchP) : List (List Int) → List Bool → Option (EchP × List Bool)
+  | [], acc => some (e, acc)
+  | v :: vs, acc =>
+    match e.add inv v with
+    | none => none
+    | some (e', b) => EchP.addAll inv e' vs (acc ++ [b])
+
+/-- determinant modulo `p` of a square matrix as the callers compute it: `0` as soon as a row is
+rejected -/
+def detModPlain (inv : Inv) (p : Nat) : EchP → List (List Int) → Option Nat
+  | e, [] => e.det
+  | e, v :: vs =>
+    match e.add inv v with
+    | none => none
+    | some (_, false) => some 0
+    | some (e', true) => detModPlain inv p e' vs
+
 /-! ### det_matz -/
 
 /-- `p -= 30; while !isprime64(p) { p -= 30 }` -/
